@@ -7,6 +7,7 @@ inapplicable actions are not allowed), direct apply of an inapplicable step rais
 import os
 from pathlib import Path
 
+from fractions import Fraction
 from vlib import sx, lib, model, gen, env, selftest, probe
 
 RULE = ("plans of 1-40 steps as random walks steered by the reference model (valid and invalid steps at every position incl. "
@@ -47,8 +48,22 @@ def check_history(ctx, wm, dom_m, init_state, plan, triplets, allow, dom, objs, 
             post = lib.read_state(t.next_state)
             optxt = sx.read(str(t.operator))
         except BaseException as e:
+            txt = ""
+            try:
+                txt = t.previous_state.serialize() + t.next_state.serialize()
+            except BaseException:
+                pass
+            if i and ("inf" in txt or "nan" in txt):
+                # with allow_invalid_actions the library (rightly) applies steps the walk treated as refused, so the
+                # history can leave the range the walk keeps (|v| <= 2^20): repeated squaring overflowed the floats.
+                # Not a verdict on the property; the rest of this history is not judged.
+                ctx.count("history_left_exact_float_range")
+                return "left-range" if ok else False
             ctx.violation("history:unreadable-step", dict(wit, step=i, observed=lib.exc_name(e)))
             return False
+        if any(abs(v) > 2 ** 40 or v.denominator > 2 ** 60 for v in list(pre[1].values()) + list(post[1].values())):
+            ctx.count("history_left_exact_float_range")
+            return "left-range" if ok else False
         ctx.count("compared:step")
         if optxt != [an] + list(call):
             ctx.violation("history:operator-differs-from-plan-line", dict(wit, step=i, expected=[an] + list(call), observed=optxt))
@@ -63,6 +78,10 @@ def check_history(ctx, wm, dom_m, init_state, plan, triplets, allow, dom, objs, 
         act = dom_m.actions[an]
         try:
             succ = model.successor(wm, act, call, pre)
+            b_ = model.binding(act, call)
+            if any(0 < m < Fraction(1, 1000) for m in model.cmp_margins(wm, act.pre, pre, b_) + model.cmp_margins(wm, act.eff, pre, b_)):
+                ctx.count("skipped_comparison_within_tolerance_band")
+                continue
         except (model.Outside, model.Inconsistent):
             ctx.count("skipped_outside_quantifier")
             continue
@@ -195,7 +214,7 @@ def run(ctx):
             ctx.feat({"allow" if allow else "strict", "file" if via_file else "list"})
             if any(s[2] for s in steps) and any(not s[2] for s in steps):
                 ctx.nontrivial([dtext, ptext, lines, allow])
-            if check_history(ctx, wm, dom_m, st0, plan, trip, allow, dom, prob.objects, wit):
+            if check_history(ctx, wm, dom_m, st0, plan, trip, allow, dom, prob.objects, wit) is True:
                 check_export(ctx, trip, wit, exporter)
             if wi == 0 and pi == 0:
                 ctx.sample({"plan": lines, "allow": allow, "steps_valid": sum(1 for s in steps if s[2]), "steps_invalid": sum(1 for s in steps if not s[2])})
